@@ -521,7 +521,16 @@ func (e *erasureCodingPartStore) newPartReader(ctx context.Context, tx database.
 				_ = pw.CloseWithError(fmt.Errorf("insufficient shards in stripe %d", stripeIndex))
 				return
 			}
-			if err := enc.ReconstructData(shards); err != nil {
+			// ReconstructData restores data shards only; a parity shard that is
+			// being healed has to be re-created as well.
+			reconstruct := enc.ReconstructData
+			for i := e.dataShards; i < e.totalShards; i++ {
+				if healShards[i] && healPipeWriters[i] != nil {
+					reconstruct = enc.Reconstruct
+					break
+				}
+			}
+			if err := reconstruct(shards); err != nil {
 				closeHealingWriters(err)
 				_ = pw.CloseWithError(err)
 				return
